@@ -71,6 +71,7 @@ class _ScopeRec:
         self.foreign_pending_at_exit = False
         self.env_depth = 0
         self.outer_cancelled_at_exit = False
+        self.when: float | None = None
         self.enclosing: list[_ScopeRec] = []
         self.had_inner = False
 
@@ -143,12 +144,23 @@ class RealRun:
         # the checkpoint completed normally
         if tc.shield:
             return
+        now = self.loop.time()
         for rec in tc.scopes:
             if rec.obj.cancel_called():
                 self.problem(
                     "checkpoint-completed",
-                    f"task {tc.name}: unshielded {node} completed at t={self.loop.time()} inside scope #{rec.sid} "
+                    f"task {tc.name}: unshielded {node} completed at t={now} inside scope #{rec.sid} "
                     f"whose cancel_called() is already True",
+                    node=node,
+                    scope=rec.sid,
+                )
+                break
+            if now > rec.obj.when():
+                # strictly later: the loop has already run an iteration at the deadline's own instant
+                self.problem(
+                    "deadline-ignored",
+                    f"task {tc.name}: unshielded {node} completed at t={now} inside scope #{rec.sid} whose deadline "
+                    f"{rec.obj.when()} has passed, and the scope was never cancelled",
                     node=node,
                     scope=rec.sid,
                 )
@@ -262,6 +274,7 @@ class RealRun:
         rec.exited_at = self.loop.time()
         rec.cancel_called = cc = bool(scope.cancel_called())
         rec.caught = caught = bool(scope.cancelled_caught())
+        rec.when = scope.when()
         rec.exc_in = None if exc_in is None else type(exc_in).__name__
         rec.exc_out = None if exc_out is None else type(exc_out).__name__
         where = f"task {tc.name}: scope #{rec.sid} ({rec.kind})"
@@ -560,10 +573,15 @@ def _compare(real: RealRun, model: scope_model.ModelResult) -> None:
         if r is None or m is None or r.obj is None:
             diffs.append(f"scope #{sid}: entered in {'reference' if r is None or r.obj is None else 'observed run'} only")
             continue
-        o = (r.cancel_called, r.caught, r.exited_at)
-        e = (m["cancel_called"], m["caught"], None if m["exited_at"] is None else secs(m["exited_at"]))
+        o = (r.cancel_called, r.caught, r.exited_at, r.when)
+        e = (
+            m["cancel_called"],
+            m["caught"],
+            None if m["exited_at"] is None else secs(m["exited_at"]),
+            math.inf if m["deadline"] == math.inf else secs(m["deadline"]),
+        )
         if o != e:
-            diffs.append(f"scope #{sid} ({r.kind}) (cancel_called, cancelled_caught, exit time): observed {o}, reference {e}")
+            diffs.append(f"scope #{sid} ({r.kind}) (cancel_called, cancelled_caught, exit time, when()): observed {o}, reference {e}")
     och = {c.name: c.outcome for c in real.children}
     ech = {n: o for n, o in model.children.items()}
     if och != ech:
@@ -582,7 +600,7 @@ def _compare(real: RealRun, model: scope_model.ModelResult) -> None:
 def _validate(case: dict) -> None:
     prog = case["program"]
     n = scope_model.count_nodes(prog) - scope_model.count_ops(prog, "mark")
-    if n > MAX_NODES + 4 or scope_model.depth(prog) > MAX_DEPTH:
+    if n > MAX_NODES or scope_model.depth(prog) > MAX_DEPTH or scope_model.count_children(prog) > MAX_CHILDREN:
         raise HarnessError(f"C13 case outside its bounds: {n} nodes, depth {scope_model.depth(prog)}")
 
 
@@ -868,7 +886,7 @@ def repair_d6(program: list, ext: int | None) -> tuple[list, int]:
         for sid, shielded in model.d6_scopes:
             node = nodes[sid]
             repairs += 1
-            if shielded:
+            if shielded or scope_model.count_nodes(program) >= MAX_NODES:
                 node[2] = None
             else:
                 node[3].append(["cp"])
@@ -948,8 +966,8 @@ CHECK = Check(
         "pending on its task); distinct = sha1 of the canonical case JSON"
     ),
     layers=[
-        Layer("invariants", st_invariants, run_invariants, {"quick": 700, "thorough": 4000}),
-        Layer("exact", st_exact, run_exact, {"quick": 900, "thorough": 5000}),
+        Layer("invariants", st_invariants, run_invariants, {"quick": 3000, "thorough": 20000}),
+        Layer("exact", st_exact, run_exact, {"quick": 3500, "thorough": 25000}),
     ],
     assumptions=[
         "asyncio backend only (trio is not installed); time is the virtual clock of pbt.vloop, busy-run clock jumps are asserted to "
